@@ -252,12 +252,11 @@ const c17NumCmds = 9
 // only with a drain proof matching the channel's current fence version, channel epoch, leader
 // epoch and leader, under the task's own unexpired fence; and the written meta stays valid.
 func Harness_C17_CutoverNeedsMatchingProof() {
+	// quick: the region where a cutover can succeed (own fence on both rows); thorough: every
+	// combination of task / meta fence tokens
 	tf, mf := 1, 1
 	if zzsym.Thorough() {
 		tf, mf = -1, -1
-	} else if zzsym.Choice("quick.fence", 2) == 1 {
-		tf, mf = zzsym.Choice("quick.taskfence", 3), zzsym.Choice("quick.metafence", 3)
-		zzsym.Assume(tf != 1 || mf != 1)
 	}
 	task, meta := c17TaskRowF(tf), c17Meta(mf)
 	e := c17Seed(task, meta)
@@ -326,8 +325,12 @@ func Harness_C17_NoAbortAfterCutoverHistory() {
 	zzsym.Assume(c17Apply(e, cmd, c17GuardOf(task), c17RuntimeGuardOf(meta)) == nil)
 	midTask, midMeta := e.read()
 	zzsym.Assume(midTask != task)
-	second := zzsym.Choice("second.cmd", c17NumCmds)
-	zzsym.Assume(second != 6)
+	// quick: the interposed command is Advance (the recorded finding); thorough: any command but Abort
+	second := 7
+	if zzsym.Thorough() {
+		second = zzsym.Choice("second.cmd", c17NumCmds)
+		zzsym.Assume(second != 6)
+	}
 	_ = c17Apply(e, second, c17GuardOf(midTask), c17RuntimeGuardOf(midMeta))
 	mid2Task, mid2Meta := e.read()
 	zzsym.Reach("second-applied")
